@@ -364,6 +364,7 @@ def translation_unit(cases):
         parts.append(c.cpp())
     parts.append("int main()\n{")
     parts.append("  fixed_slot_by_reference();")
+    parts.append("  fixed_signal_connect();")
     for c in cases:
         parts.append("  case_%d();" % c.idx)
     parts.append("  return 0;\n}")
